@@ -47,7 +47,23 @@ class Recorder:
     def handlers(self):
         from pynetdicom import evt
 
-        return [(getattr(evt, n), self._wrap(self._make(n))) for n in NOTIF]
+        out = []
+        for n in NOTIF:
+            ev = getattr(evt, n)
+            # a one-shot observer bound IN FRONT of the recorder: it unbinds itself the first time it is called (the
+            # usual "wait until X happened once" pattern).  Other observers of the same notification must not notice.
+            out.append((ev, self._one_shot(ev)))
+            out.append((ev, self._wrap(self._make(n))))
+        return out
+
+    def _one_shot(self, ev):
+        def once(event):
+            try:
+                event.assoc.unbind(ev, once)
+            except Exception:
+                pass
+
+        return once
 
     def _wrap(self, f):
         import functools
